@@ -172,8 +172,12 @@ class _Frame:
 class _TxSeq:
     orf = None
 
-    def __init__(self, frames):
+    def __init__(self, frames, n):
         self.frames = frames
+        self.n = n
+
+    def __len__(self):
+        return self.n
 
     def __getitem__(self, sl):
         return _Frame(self.frames[sl.start])
@@ -184,10 +188,14 @@ class _PG:
         self.orf_id_map = {(orf_start, None): 'ORF1'}
 
 
-def _orf_coords(f0, f1, f2, orf_start, j):
+def _orf_coords(n, f0, f1, f2, orf_start, j):
     s = concretize(orf_start, 0, 8)        # the implementation computes int(orf_start / 3)
+    n = concretize(n, 2, 11)
     frames = [f0, f1, f2]
-    out = cno.get_orf_sequences(_PG(s), 'T1', 'G1', _TxSeq(frames), False)
+    for i in range(3):
+        if len(frames[i]) != (n - i) // 3:
+            return SKIP                    # frame i of a transcript of n nt has (n - i) // 3 codons
+    out = cno.get_orf_sequences(_PG(s), 'T1', 'G1', _TxSeq(frames, n), False)
     if len(out) != 1:
         return -10
     rec = out[0]
@@ -202,7 +210,7 @@ def _orf_coords(f0, f1, f2, orf_start, j):
     fields = rec.description.split('|')
     if fields[:3] != ['T1', 'G1', 'ORF1'] or rec.id != rec.description or rec.name != rec.description:
         return -10
-    lo, hi = fields[3].split('-')
+    lo, hi = fields[3].split('-', 1)
     if int(lo) != s or int(hi) != s + 3 * ln:
         return -10
     got = seq_points(rec.seq)
@@ -213,15 +221,16 @@ def _orf_coords(f0, f1, f2, orf_start, j):
     return OK
 
 
-@cond('C08', bounds='three translated frames of <= 3 residues each (any letters or *), ORF start 0..8',
+@cond('C08', bounds='transcript of 2..11 nt whose three translated frames are any letters or *, ORF start 0..8',
       encodes=['moPepGen.cli.call_novel_orf.get_orf_sequences'],
       stubs=['transcript sequence -> object whose frame translations are symbolic residue lists',
              'pgraph.orf_id_map -> one ORF'], codes=CODES, tokens=True, timeout=600)
-def c08_orf_coords(f0: List[int], f1: List[int], f2: List[int], orf_start: int, j: int) -> int:
+def c08_orf_coords(n: int, f0: List[int], f1: List[int], f2: List[int], orf_start: int, j: int) -> int:
     """
+    pre: 2 <= n <= 11
     pre: len(f0) <= 3 and len(f1) <= 3 and len(f2) <= 3
     pre: all(42 <= c <= 90 for c in f0) and all(42 <= c <= 90 for c in f1) and all(42 <= c <= 90 for c in f2)
     pre: 0 <= orf_start <= 8
     post: _ >= 0
     """
-    return _orf_coords(f0, f1, f2, orf_start, j)
+    return _orf_coords(n, f0, f1, f2, orf_start, j)
